@@ -75,6 +75,11 @@ class OperatorDict(Mapping):
     def filter(self, keys_out, values_out):
         """ For given keys and values, keep only symbolically non-zero elements. """
         keysvalues = tuple((k, simpv) for k, v in zip(keys_out, values_out) if (simpv := self.algebra.simp_func(v)))
+        if self.algebra.graded and keysvalues:
+            # In graded mode only entire grades are dropped, such that the result still holds complete grades.
+            nonzero = dict(keysvalues)
+            grades = {format(k, 'b').count('1') for k in nonzero}
+            keysvalues = tuple((k, nonzero.get(k, 0)) for k in keys_out if format(k, 'b').count('1') in grades)
         keys, values = zip(*keysvalues) if keysvalues else (tuple(), list())
         return keys, list(values)
 
